@@ -63,6 +63,9 @@ var hostileVarints = []struct {
 	{"0xfe-2^16", []byte{0xfe, 0, 0, 1, 0}}, {"0xfe-2^32-1", []byte{0xfe, 0xff, 0xff, 0xff, 0xff}},
 	{"0xff-2^40", []byte{0xff, 0, 0, 0, 0, 0, 1, 0, 0}}, {"0xff-2^63", []byte{0xff, 0, 0, 0, 0, 0, 0, 0, 0x80}},
 	{"0xff-2^64-1", []byte{0xff, 0xff, 0xff, 0xff, 0xff, 0xff, 0xff, 0xff, 0xff}},
+	// non-canonical encodings (a small value in a long form) and encodings cut short
+	{"0xfd-noncanonical-0", []byte{0xfd, 0, 0}}, {"0xfe-noncanonical-1", []byte{0xfe, 1, 0, 0, 0}},
+	{"0xff-noncanonical-1", []byte{0xff, 1, 0, 0, 0, 0, 0, 0, 0}}, {"0xfd-cut", []byte{0xfd}}, {"0xff-cut", []byte{0xff, 0}},
 }
 
 func headerWithBits(bits uint32, ts uint32) []byte {
@@ -138,6 +141,23 @@ func buildCases(thorough bool) []crashCase {
 	for _, bits := range []uint32{0x00000001, 0x01010000, 0x02000100, 0x017f0000, 0x0200ff00, 0x03000001, 0x1d00ffff, 0x1d80ffff, 0x20ffffff, 0x21010000, 0x22000001, 0xff7fffff, 0xffffffff, 0} {
 		for _, ts := range []uint32{0, 1231469665, 0x7fffffff, 0xffffffff} {
 			special = append(special, namedBytes{fmt.Sprintf("headers/bits=%#08x/time=%#x", bits, ts), headerWithBits(bits, ts)})
+		}
+	}
+	// headers messages whose per-header transaction count (the byte after each 80-byte header) is
+	// hostile, and well-framed headers messages whose payload ends at every possible offset
+	for _, first := range []struct {
+		name string
+		h    *wire.BlockHeader
+	}{{"bsv-split", netsim.BSVSplit}, {"block1", netsim.Block1}} {
+		hb := &bytes.Buffer{}
+		first.h.Serialize(hb)
+		for _, v := range hostileVarints {
+			p := append(append([]byte{1}, hb.Bytes()...), v.b...)
+			special = append(special, namedBytes{"headers[" + first.name + "]/txcount=" + v.name, netsim.Frame(wire.CmdHeaders, p)})
+		}
+		full := netsim.HeadersPayload(first.h)
+		for k := 0; k < len(full); k++ {
+			special = append(special, namedBytes{fmt.Sprintf("headers[%s]/payload-ends-at-%d", first.name, k), netsim.Frame(wire.CmdHeaders, full[:k])})
 		}
 	}
 	// transactions with hostile input / output / script counts
@@ -447,7 +467,7 @@ func runC15(tier string) int {
 		Coverage: map[string]any{
 			"evaluations":                   len(cases),
 			"distinct_nontrivial":           nontrivial,
-			"rule":                          "complete structured enumeration: 6 session stages (before handshake, handshake complete, ready, ready with tx manager, ready with a block requested, the latter with the stream delivered in pieces of at most 7 bytes) x {19 base messages x frame mutations (11 declared lengths, corrupt checksum / magic / command, truncation at every header field boundary and inside the payload, 9 hostile values for the leading count), extended headers for tx/block/headers/unknown with 8 declared lengths up to 2^64-1 and no data, headers with 14 bits encodings x 4 timestamps, transactions (classic, extended, inside the requested block) with 9 hostile values for each of input count / input script length / output count / output script length, blocks with hostile transaction counts, a block whose frame length is shorter than its content}; thorough adds ordered (mutated, valid) pairs. Every case is one run of a real node (sharing repositories with a healthy witness node) in a worker process under an 8 GB address-space limit; every case is a distinct hostile input (all non-trivial); a dying worker identifies the case, which is re-run alone to confirm",
+			"rule":                          "complete structured enumeration: 6 session stages (before handshake, handshake complete, ready, ready with tx manager, ready with a block requested, the latter with the stream delivered in pieces of at most 7 bytes) x {19 base messages x frame mutations (11 declared lengths, corrupt checksum / magic / command, truncation at every header field boundary and inside the payload, 9 hostile values for the leading count), extended headers for tx/block/headers/unknown with 8 declared lengths up to 2^64-1 and no data, headers with 14 bits encodings x 4 timestamps, headers with 14 hostile per-header transaction counts and with a well-framed payload ending at every offset 0..81, transactions (classic, extended, inside the requested block) with 9 hostile values for each of input count / input script length / output count / output script length, blocks with hostile transaction counts, a block whose frame length is shorter than its content}; thorough adds ordered (mutated, valid) pairs. Every case is one run of a real node (sharing repositories with a healthy witness node) in a worker process under an 8 GB address-space limit; every case is a distinct hostile input (all non-trivial); a dying worker identifies the case, which is re-run alone to confirm",
 			"exhaustive":                    true,
 			"outcomes":                      outcomes,
 			"samples":                       samples,
